@@ -669,13 +669,16 @@ func InitializeSessionVariables(pc backend.PooledConnect, charset string, collat
 	if charsetChanged || variablesChanged {
 		if err = pc.WriteSetStatement(); err != nil {
 			log.Warn("set charset or session variables failed, address: %s, error: %s", pc.GetAddr(), err.Error())
-			// Reset session variables to ensure the next use of the connection does not encounter incorrect settings or character set issues.
-			// Resetting helps to address the root causes of session inconsistencies without masking them by simply pc.Close()
-			sessionVariables.Reset(err)
+			// Go back to the session variables a backend acknowledged last, so that the next statements of the session are not
+			// refused for the same reason. This addresses the root cause without masking it by simply pc.Close(), and it
+			// leaves every variable that was acknowledged before the refused statement as the session set it.
+			sessionVariables.RestoreAcknowledged()
 			return err
 		}
 	}
 
+	// the backend session now carries the session's variables
+	sessionVariables.Acknowledge()
 	return nil
 }
 
